@@ -116,7 +116,9 @@ PROPS = {
         ],
     },
     "C11": {
-        "verus": ["c11_rocksdb", "c11_fjall"],
+        # c12_leaf: keys, values and members are Postcard images; rule R10/R17 assume C12's contract for them, so the leaf codecs
+        # (all widths, LEB128 loops) are re-established here deductively on every run, next to the Kani harnesses below
+        "verus": ["c11_rocksdb", "c11_fjall", "c12_leaf"],
         # the key scheme rests on the Postcard leaf codecs of the integer widths keys are made of (rule R10 assumes
         # C12's contract): re-establish that part here, on the real code, every run
         "kani": [
